@@ -100,6 +100,7 @@ type mutexDef struct {
 	id      int
 	key     string
 	varName string
+	before  string // name of a mutex that must not be held when this one is acquired
 }
 
 type pkgDef struct {
@@ -236,8 +237,14 @@ func readContracts(path string) (*tables, error) {
 			}
 			m := mutexDef{name: f[1], key: f[3]}
 			fmt.Sscan(f[2], &m.id)
-			if len(f) > 4 && strings.HasPrefix(f[4], "var=") {
-				m.varName = f[4][4:]
+			for _, a := range f[4:] {
+				if strings.HasPrefix(a, "var=") {
+					m.varName = a[4:]
+				} else if strings.HasPrefix(a, "before=") {
+					m.before = a[7:]
+				} else {
+					return nil, fmt.Errorf("%s:%d: bad mutex attribute %q", path, n+1, a)
+				}
 			}
 			t.mutexes = append(t.mutexes, m)
 			mutexNames[m.name] = m.id
@@ -1388,6 +1395,15 @@ func (t *tr) callNoArgs(c *ast.CallExpr) Stmt {
 				if id, ok := g.mutexID(owner+"."+field, rootIdent(sel.X)); ok {
 					switch o.Name() {
 					case "Lock":
+						for _, m := range g.tab.mutexes {
+							if m.id == id && m.before != "" {
+								b, ok := mutexNames[m.before]
+								if !ok {
+									t.failf(pos, "mutex %s: unknown mutex %q in before=", m.name, m.before)
+								}
+								return seq(t.act(pos, fmt.Sprintf("AOrder %d", b)), sAct{fmt.Sprintf("ALock %d", id)})
+							}
+						}
 						return t.act(pos, fmt.Sprintf("ALock %d", id))
 					case "Unlock":
 						return t.act(pos, fmt.Sprintf("AUnlock %d", id))
